@@ -89,6 +89,29 @@ def _c03_replica_file_path_pre(f):
         and not f.startswith('/') and not f.endswith('/') and '//' not in f
 
 
+def check_two_replicated(first, second, r, n):
+    """A replicated consumer of two replicated producers: copy r consumes copy r of both, whatever their names."""
+    a, b = 'stage0.%s:ref' % first, 'stage0.%s:ref' % second
+    comp = consumer([a, b], '-a %s:ref -b %s' % (first, b))
+    out = FlowIR.compile_component_replica(comp, r, n, [a, b])
+    want = [(0, '%s%d' % (first, r), None, 'ref'), (0, '%s%d' % (second, r), None, 'ref')]
+    toks = out['command']['arguments'].split()
+    return [P(x) for x in out['references']] == want and len(toks) == 4 and [P(toks[1]), P(toks[3])] == want
+
+
+def _c03_replica_two_replicated_producers(s: str) -> bool:
+    """
+    pre: 1 <= len(s) <= 2 and 33 <= ord(s[0]) <= 126 and 33 <= ord(s[-1]) <= 126 and ':' not in s and '/' not in s and '.' not in s and '%' not in s and ' ' not in s and ',' not in s and '=' not in s and s[-1] not in '0123456789' and s != 'A'
+    post: _
+    """
+    if type(s) is str:
+        return check_two_replicated('A', s, 1, 2) and check_two_replicated(s, 'A', 1, 2) and check_two_replicated('A', s, 0, 3)
+    return check_two_replicated('A', s, 1, 2)
+
+
+_c03_replica_two_replicated_producers_pre = _c03_replica_A_replicated_other_symbolic_pre
+
+
 def check_aggregate(rep_name, other_name, spelling, n, tail=':ref'):
     rep_abs = 'stage0.%s%s' % (rep_name, tail)
     other_abs = 'stage0.%s%s' % (other_name, tail)
@@ -110,7 +133,7 @@ def _c03_aggregate_symbolic_replicated(s: str) -> bool:
     """
     if type(s) is str:
         return check_aggregate(s, 'AB', 'abs', 2) and check_aggregate(s, 'AB', 'rel', 3) and \
-            check_aggregate(s, 'AB', 'rel', 2, '/f.txt:copy')
+            check_aggregate(s, 'AB', 'rel', 2, '/f.txt:copy') and check_aggregate(s, 'AB', 'rel', 12)
     return check_aggregate(s, 'AB', 'rel', 2)
 
 
@@ -144,6 +167,7 @@ def sweep(mod):
     s2 = [(s,) for s in _strings(2)]
     yield '_c03_replica_A_replicated_other_symbolic', s2
     yield '_c03_replica_symbolic_replicated_other_AB', s2
+    yield '_c03_replica_two_replicated_producers', s2
     yield '_c03_replica_file_path', [(s,) for s in _strings(3, ['a', '.', '/', '-', '*'])]
     yield '_c03_aggregate_symbolic_replicated', s2
     yield '_c03_aggregate_A_replicated_other_symbolic', s2
